@@ -42,6 +42,9 @@ def rom_func(rom, bw):
                 return data[a]
             if pad:
                 return 0
+            if rom.get('holes'):
+                from .common import RomHole
+                raise RomHole(a)
             raise HarnessError('rom dict read outside defined data')
         return f
     if kind == 'func':
